@@ -208,6 +208,8 @@ struct V {
     prov_matches: std::cell::Cell<u32>,
     /// inside the condition of any branch
     in_any_cond: std::cell::Cell<bool>,
+    /// nesting depth of blocks below the enclosing function body (0 = the body's own branches)
+    fn_block_depth: std::cell::Cell<u32>,
 }
 
 impl V {
@@ -357,9 +359,6 @@ impl V {
         if self.non_last_cond.get() && ty.has_union() && constraining_subpatterns(pat) >= 2 {
             return Err("tuple pattern with several type-constraining sub-patterns on a union-typed value in a non-last branch (open finding: complement narrowing)".into());
         }
-        if maybe_nil && accepts_nil(pat) && self.multi_match_cond.get() {
-            return Err("nil test on a value that may be nil inside a condition with several matches (open finding)".into());
-        }
         let mut bound = vec![];
         pat.vars(&mut bound);
         if let Some(b) = pat_binds(pat, ty) {
@@ -471,6 +470,11 @@ impl V {
             let is_last = i + 1 == terms.len();
             self.flow.set((after_match, prov));
             let before = cur.clone();
+            if let Term::Match(_) = t {
+                if i > 0 && matches!(&terms[i - 1], Term::Access(Src::Param, _)) && self.fn_block_depth.get() > 0 {
+                    return Err("match on `$` inside a nested block (open finding: it narrows the block's parameter)".into());
+                }
+            }
             if let Term::Match(p) = t {
                 let maybe_nil = before.contains_nil() && !before.is_nil();
                 let field_access = i > 0 && matches!(&terms[i - 1], Term::Access(_, a) if !a.is_empty());
@@ -589,7 +593,9 @@ impl V {
                 let nl = self.non_last_cond.replace(false);
                 let pm = self.prov_matches.get();
                 let ac = self.in_any_cond.replace(false);
+                self.fn_block_depth.set(self.fn_block_depth.get() + 1);
                 let r = self.branches(&inner, tin, e, tail, cx);
+                self.fn_block_depth.set(self.fn_block_depth.get() - 1);
                 self.in_any_cond.set(ac);
                 self.prov_matches.set(pm);
                 self.in_field.set(depth);
@@ -605,7 +611,9 @@ impl V {
                 let nl = self.non_last_cond.replace(false);
                 let pm = self.prov_matches.get();
                 let ac = self.in_any_cond.replace(false);
+                let bd = self.fn_block_depth.replace(0);
                 let r = self.function(env, param, body);
+                self.fn_block_depth.set(bd);
                 self.in_any_cond.set(ac);
                 self.prov_matches.set(pm);
                 self.in_field.set(depth);
@@ -726,6 +734,9 @@ impl V {
                 if ty.is_never() {
                     return Err("binding a tail call".into());
                 }
+                if matches!(c.terms.last(), Some(Term::Access(Src::Param, _))) && self.fn_block_depth.get() > 0 {
+                    return Err("match on `$` inside a nested block (open finding: it narrows the block's parameter)".into());
+                }
                 env.kill_pending();
                 if fs_out.1 && !fs_out.0 {
                     self.prov_matches.set(self.prov_matches.get() + 1);
@@ -766,6 +777,13 @@ impl V {
             if !is_last {
                 if ty.is_nil() || ty.is_never() {
                     return Err("statically dead steps".into());
+                }
+                // F25 family: after the step `~.1,` on a field of type `T | []` the compiler still treats
+                // the flowing value as nil-able; a nil-accepting pattern on it (`=_`, a binder) in a
+                // following block then loses the consequence's bindings (`#['int, ('int | [])] { ~.1, { =_ => =h h } }`
+                // is rejected with VariableUndefined, `… => =h` gives nil)
+                if ty.contains_nil() && matches!(c.terms.last(), Some(Term::Access(_, a)) if !a.is_empty()) && c.pat.is_none() {
+                    return Err("nil-able field access as a sequence step (F25 family)".into());
                 }
                 env.settle(&pending);
                 env.kill_pending();
@@ -858,9 +876,6 @@ impl V {
         for v in cap.vars.iter_mut() {
             v.prov = false;
             v.used.set(false);
-        }
-        if param.contains_nil() && !param.is_nil() {
-            return Err("function whose parameter type is `T | []` (open finding: return-type dispatch with a nil argument)".into());
         }
         let Some(body) = body else {
             if param.is_nil() {
@@ -1007,7 +1022,7 @@ pub fn validate(p: &Program) -> R<()> {
     if p.prints_ambiguously() {
         return Err("prints ambiguously".into());
     }
-    let v = V { flow: std::cell::Cell::new((false, true)), last_narrows: std::cell::Cell::new(false), in_field: std::cell::Cell::new(0), in_cond: std::cell::Cell::new(false), multi_match_cond: std::cell::Cell::new(false), non_last_cond: std::cell::Cell::new(false), prov_matches: std::cell::Cell::new(0), in_any_cond: std::cell::Cell::new(false) };
+    let v = V { flow: std::cell::Cell::new((false, true)), last_narrows: std::cell::Cell::new(false), in_field: std::cell::Cell::new(0), in_cond: std::cell::Cell::new(false), multi_match_cond: std::cell::Cell::new(false), non_last_cond: std::cell::Cell::new(false), prov_matches: std::cell::Cell::new(0), in_any_cond: std::cell::Cell::new(false), fn_block_depth: std::cell::Cell::new(0) };
     let cx = Cx { param: None, rec: false };
     let mut env = Env::default();
     let n = p.steps.len();
